@@ -253,6 +253,41 @@ print(json.dumps(out))
     return dict(unit="self-reference", func="Compiler (run-time check)", paths=len(cases), obligations=obs, wall=0.0)
 
 
+def unit_open_device(eng=None):
+    """devices.open_device is where every output (and the listing) is opened; its callers handle IOError only: for every kind of bad path it
+    returns a file object or raises IOError (OSError) - checked on the real function"""
+    code = r'''
+import os, tempfile, shutil
+from pdpy11.devices import open_device
+d = tempfile.mkdtemp(prefix="pyvc-dev-")
+out = []
+try:
+    os.mkdir(os.path.join(d, "dir"))
+    paths = ["ok.bin", "a\x00b", "", "dir", "nosuch/x.bin", "x" * 5000, "dir/", "\u044f.bin", "a\nb", " ", ".", "..", "ok.bin/x", "\x00"]
+    for p in paths:
+        for mode in ("wb", "w", "rb"):
+            full = os.path.join(d, p) if p else p
+            try:
+                f = open_device(full, mode)
+                f.close()
+                out.append([p, mode, "ok"])
+            except OSError as e:
+                out.append([p, mode, "OSError"])
+            except Exception as e:
+                out.append([p, mode, "raised " + type(e).__name__])
+finally:
+    shutil.rmtree(d, ignore_errors=True)
+result = out
+'''
+    r = driver.native([{"kind": "py", "code": code}], driver.tree_root())[0]
+    res = r.get("result") or [["?", "?", str(r)[:300]]]
+    bad = [x for x in res if x[2] not in ("ok", "OSError")]
+    ob = dict(label="open_device-returns-a-file-or-raises-IOError-for-every-kind-of-path(NUL, empty, directory, missing directory, over-long, non-ASCII)", kind="rac", status="proved" if res and not bad else "failed",
+              secs=0.0, path=[], witness=None, detail=str(bad[:4]), events=[], smt2=None, backend="cpython-native", unit="open_device-rac", func="devices.open_device (run-time check)", cases=len(res),
+              cfg=dict(kind="open_device"))
+    return dict(unit="open_device-rac", func="devices.open_device (run-time check)", paths=len(res), obligations=[ob], wall=0.0)
+
+
 # ------------------------------------------------------------------ bounded: character- and token-level mutation of a statement corpus
 MUT_SHARDS = 8
 RESOURCE_SITES = ("operators.lshift", "operators.lsh", "operators.rshift", "metacommands.repeat", "metacommands.blkb", "metacommands.blkw", "metacommands.align",
@@ -307,7 +342,7 @@ def unit_mutation(eng, shard, tier="quick"):
 
 def units(tier):
     us = [("mutation[%d]" % k, "unit_mutation", dict(shard=k, tier=tier)) for k in range(MUT_SHARDS)]
-    us += [("random-programs", "unit_random_programs", dict(tier=tier)), ("self-reference", "unit_self_reference", {}), ("align", "unit_align_total", {}), ("bin", "unit_bin", {}),
+    us += [("random-programs", "unit_random_programs", dict(tier=tier)), ("self-reference", "unit_self_reference", {}), ("open_device", "unit_open_device", {}), ("align", "unit_align_total", {}), ("bin", "unit_bin", {}),
           ("awaiting", "unit_awaiting", {}), ("wait", "unit_wait", {}), ("wait-chain", "unit_wait_chain", {}), ("promise", "unit_promise", {}), ("number", "unit_number", {}), ("encode", "unit_encode", {}),
           ("charliteral", "unit_charliteral", {}), ("include", "unit_include", {}), ("insert_file", "unit_insert_file", {}), ("repeat", "unit_repeat", {}),
           ("resolve-register", "unit_resolve_register", {}), ("try_as_register", "unit_try_as_register", {}), ("try_accumulator", "unit_try_accumulator", {})]
